@@ -31,12 +31,12 @@ int print_to_with(var out, int pos, const char* fmt, var args) {
     if (used >= nargs) { __CPROVER_assert(0, "[C15] show never hands characters of the value to print_to as a conversion specification (FormatError, or text that differs from the value)"); __CPROVER_assume(0); }
     if (fmt[i + 1] == 'c') { STREAM[cv_wpos++] = (char)c_int(get(args, NULL)); used++; i++; continue; }
     if (fmt[i + 1] == 's') { const char* v = ((struct String*)get(args, NULL))->val; for (int k = 0; v[k] != 0; k++) STREAM[cv_wpos++] = v[k]; used++; i++; continue; }
-    __CPROVER_assert(0, "harness: print_to with a conversion other than %c and %s");
+    CV_LIMIT(0, "harness: print_to with a conversion other than %c and %s");
   }
   return cv_wpos;
 }
 int scan_from_with(var input, int pos, const char* fmt, var args) {
-  __CPROVER_assert(fmt[0] == '%' && fmt[1] == 'c' && fmt[2] == 0, "harness: look reads character by character");
+  CV_LIMIT(fmt[0] == '%' && fmt[1] == 'c' && fmt[2] == 0, "harness: look reads character by character");
   __CPROVER_assert(pos >= 0 && pos < cv_wpos, "[C15] look never reads past the text that show wrote");
   ((struct Int*)get(args, NULL))->val = STREAM[pos];
   return pos + 1;
